@@ -257,7 +257,12 @@ def ensure_build() -> tuple[bool, str]:
         # Aoef/Schema.v is generated from the schema table of harness/aoef.py (rewritten only when it changes)
         from . import aoef as _aoef
 
-        txt = _aoef.gen_schema_v()
+        try:
+            from . import aoef_extract as _ext
+
+            txt = _aoef.gen_schema_v(_ext.extract_all(REPO_SRC))
+        except Exception:  # translator cannot read the adapters: the AOEF checks report it (inventory); keep the library buildable
+            txt = _aoef.gen_schema_v()
         sp = COQ / "Aoef" / "Schema.v"
         if not sp.exists() or sp.read_text() != txt:
             sp.write_text(txt)
